@@ -12,8 +12,8 @@ SHARDS = {"quick": 16, "thorough": 16}
 TIMEOUT = {"quick": 1200, "thorough": 5400}
 REQUIRED_EVENTS = ["divergence_points", "formula_comparisons", "projector_samples", "ensemble_tests"]
 RULE = (
-    "isotropic models of all classes valid in dim 2/3 x mean velocities {0.3, 1, -2} x mode numbers {64, 1000} x seeds x off-grid "
-    "evaluation points; histories re-assigning the mean velocity / model on a live generator; every case non-trivial"
+    "isotropic models of all classes valid in dim 2/3 x mean velocities {0.3, 1, -2, 0} x mode numbers {64, 1000} x seeds x "
+    "{1, dim, dim+1, 7} off-grid evaluation points; histories re-assigning the mean velocity / model on a live generator; every case non-trivial"
 )
 ASSUMPTIONS = [
     "white box: the generator's samples (wave vectors, amplitudes) are tapped and the field recomputed with the oracle projector "
@@ -32,14 +32,15 @@ FRAC = {2: [3 / 8, 1 / 8], 3: [8 / 15, 1 / 15, 1 / 15]}
 
 def generate(tier, seed):
     rng = np.random.default_rng([seed, 16])
-    n = {"quick": 1, "thorough": 6}[tier]
+    n = {"quick": 3, "thorough": 12}[tier]
     cases = []
     for rep in range(n):
         for name in common.MODELS:
             for dim in (2, 3):
                 if dim > common.max_valid_dim(name):
                     continue
-                cases.append(("field", {"name": name, "dim": dim, "mean_u": float(rng.choice([0.3, 1.0, -2.0])), "mode_no": int(rng.choice([64, 1000])),
+                cases.append(("field", {"name": name, "dim": dim, "mean_u": float(rng.choice([0.3, 1.0, -2.0, 0.0])), "mode_no": int(rng.choice([64, 1000])),
+                                        "npts": int(rng.choice([1, dim, dim + 1, 7])),
                                         "seed": int(rng.integers(1, 1 << 24)), "cseed": int(rng.integers(1 << 30)),
                                         "history": str(rng.choice(["none", "mean_u", "model", "mode_no"]))}))
     for dim in (2, 3):
@@ -93,7 +94,7 @@ def check_field(ctx, c):
         if hist != "none":
             srf(rng.uniform(-3, 3, size=(dim, 3)))  # use the live object first
         if hist == "mean_u":
-            mean_u = float(rng.choice([0.5, -1.5, 3.0]))
+            mean_u = float(rng.choice([0.5, -1.5, 3.0, 0.0]))
             srf.generator.mean_u = mean_u
         elif hist == "model":
             srf.model.var = round(float(rng.uniform(0.3, 3)), 3)
@@ -101,13 +102,14 @@ def check_field(ctx, c):
         elif hist == "mode_no":
             srf.generator.mode_no = int(rng.choice([32, 128]))
     ctx.cell(f"field/{c['name']}/dim{dim}/history={hist}")
-    x = rng.uniform(-6, 6, size=(dim, 7)) + 1e-3 * rng.random()
+    npts = int(c.get("npts", 7))  # incl. a single point and exactly `dim` points (square position arrays)
+    x = rng.uniform(-6, 6, size=(dim, npts)) + 1e-3 * rng.random()
     with warnings.catch_warnings():
         warnings.simplefilter("ignore")
         u = np.asarray(srf(x), dtype=float)
     gen = srf.generator
     mech = {"model": c["name"], "dim": dim, "history": hist}
-    if u.shape != (dim, 7):
+    if u.shape != (dim, npts):
         ctx.fail(dict(mech, what="vector-field-shape"), f"shape {u.shape}")
         return
     # ---- white box: output == oracle sum with the solenoidal projector -----------------------------------
